@@ -135,6 +135,7 @@ func scanTable(c *core.Ctx) (rs rows, runs int, lit *ssa.Function, undecided str
 						m.Fields["Fields"] = &absint.List{IsNil: true}
 						holder = absint.NewTok("holder", "holder")
 						holder.Fields["Meta"] = m
+						holder.Fields["IsEmbed"], holder.Fields["Holder"] = absint.Bool(false), absint.Nil{} // the component's own holder
 						value = absint.NewTok("fieldValue", "rvalue")
 						sf = absint.NewTok("structField", "structfield")
 						ftype = absint.NewTok("T:field", "type")
@@ -320,7 +321,7 @@ func scanWholeRun(c *core.Ctx, scan *ssa.Function, layout map[string][]scanField
 	topBase := absint.NewTok("holder.Base", "base")
 	topType, topVal := absint.NewTok("T:top", "type"), absint.NewTok("V:top", "rvalue")
 	topBase.Fields["Type"], topBase.Fields["Value"] = topType, topVal
-	top.Fields["Base"], top.Fields["Meta"], top.Fields["IsEmbed"] = topBase, m, absint.Bool(false)
+	top.Fields["Base"], top.Fields["Meta"], top.Fields["IsEmbed"], top.Fields["Holder"] = topBase, m, absint.Bool(false), absint.Nil{}
 	canSet := map[absint.Value]bool{}
 	kindOf := map[absint.Value]int64{topType: 25}
 	typeOfValue := map[absint.Value]*absint.Tok{topVal: topType}
@@ -990,6 +991,19 @@ func c11HolderReaders(c *core.Ctx, r *core.Report) {
 			if !okR && pureTextFn(c, top, 0) {
 				okR = true // a function that only reads and formats: the marker ends up in a text, nothing else
 			}
+			if !okR && assertionOnly(c, top) {
+				// a check that does nothing when it passes and never returns when it fails, called by the field scan
+				// only: whether it can fail for an embedded struct is what the scan's table shows (row whole-scan runs
+				// the scan, checks included, over direct and embedded fields)
+				scan := fieldScanner(c)
+				callers := c.Callers(top)
+				okR = scan != nil && len(callers) > 0 && len(c.FuncValueUses(top)) == 0
+				for _, cl := range callers {
+					if core.TopLevel(cl) != scan {
+						okR = false
+					}
+				}
+			}
 			key := "Holder." + f + "-reader@" + core.FnName(top)
 			if seen[key] {
 				continue
@@ -1143,4 +1157,55 @@ func c11TagGate(c *core.Ctx, r *core.Report, p *procInfo) {
 			}
 		}
 	}
+}
+
+// assertionOnly: fn returns nothing and does nothing but read, compare, format and call functions that never return
+// (no store outside its own temporaries, no map update, no send, no goroutine, no defer, no call of a function value).
+func assertionOnly(c *core.Ctx, fn *ssa.Function) bool {
+	if fn == nil || fn.Blocks == nil || fn.Signature.Results().Len() != 0 || len(fn.AnonFuncs) != 0 {
+		return false
+	}
+	for _, b := range fn.Blocks {
+		for _, in := range b.Instrs {
+			switch x := in.(type) {
+			case *ssa.Store:
+				addr := x.Addr
+				if ia, ok := addr.(*ssa.IndexAddr); ok {
+					addr = ia.X
+				}
+				if _, ok := addr.(*ssa.Alloc); !ok {
+					return false
+				}
+			case *ssa.MapUpdate, *ssa.Send, *ssa.Go, *ssa.Defer, *ssa.MakeClosure:
+				return false
+			case *ssa.Call:
+				com := x.Common()
+				if _, isB := com.Value.(*ssa.Builtin); isB {
+					continue
+				}
+				if com.IsInvoke() {
+					return false
+				}
+				cal := com.StaticCallee()
+				if cal == nil {
+					return false
+				}
+				if c.InScope(cal) {
+					if neverReturns(cal, 0) || pureTextFn(c, cal, 0) {
+						continue
+					}
+					return false
+				}
+				full := cal.String()
+				switch {
+				case strings.HasPrefix(full, "fmt.Sprint"), strings.HasPrefix(full, "strings."), strings.HasPrefix(full, "strconv."):
+				case strings.HasPrefix(full, "(reflect.Value).") && !strings.Contains(full, "Set") && !strings.Contains(full, "Call"):
+				case full == "reflect.TypeOf" || full == "reflect.ValueOf" || full == "reflect.Indirect":
+				default:
+					return false
+				}
+			}
+		}
+	}
+	return true
 }
